@@ -13,7 +13,8 @@ RULE = ("(a) exhaustive: for every (N,m), N=2..5, N*m <= 16 (quick) / 20 (thorou
         "(exact integer cell vectors on the unit box differ by 1 in exactly one coordinate), and for N*(m+1) <= the same bound every density-(m+1) cell of "
         "subinterval i*2^N+k must lie inside the density-m cell of i; (b) windows (start, end, every digit-carry position, random) for densities up to "
         "N*m = 50: adjacency inside the window and nesting against density m-1; (c) sampled pairs (log-uniform gaps, pairs straddling subinterval "
-        "boundaries of every level) on unit and arbitrary boxes must satisfy the Hoelder inequality. Non-trivial: every case; distinct = (kind, N, m, range).")
+        "boundaries of every level) on unit and arbitrary boxes must satisfy the Hoelder inequality. Non-trivial: every case; distinct = (kind, N, m, range)."
+       ' Adjacency and nesting are also examined on generated boxes (half of them on Solver-built evolvents).')
 ASSUMPTIONS = ["cell arithmetic on the unit box is exact", "the Hoelder inequality on arbitrary boxes is tested with 8 ulp slack on the norm"]
 CHUNK = 1
 
